@@ -87,6 +87,13 @@ CHECKS = {
             "Trusted: sys.addaudithook sees every open(); the stage boundary is the entry of main.print_pqr; faults "
             "during the final write are not injected (outside the property's stage list). Known findings: three "
             "force-field data gaps on the success side.", "DESIGN.md#c12"),
+    "C13": ("exploration", "geometric ground-truth monitor: generator-placed SG-SG distances (recomputed from the file) vs the bridge state of the returned biomolecule and the PQR lines",
+            "Each run places two cysteine peptides at a chosen SG-SG distance (dense at 2.5 +- 0.002..0.1) under chain "
+            "id / order / numbering / decoy variations; both partners of an unambiguous pair inside the limit must "
+            "lack HG, reference each other and carry bridged-cysteine parameters; cysteines with no sulfur inside "
+            "the limit must keep HG and free-cysteine parameters.",
+            "Trusted: distances recomputed from the 3-decimal file coordinates; clusters of three sulfurs are outside "
+            "the property's premise and only counted.", "DESIGN.md#c13"),
 }
 
 NOT_APPLICABLE = {}
